@@ -266,6 +266,9 @@ def main(argv=None):
         print(f"INCONCLUSIVE property={pid} reason={'; '.join(inconclusive[:4])}")
     else:
         print(f"VIOLATED property={pid} tier={tier} seed={seed} violations={unlisted_total} evaluations={evaluations}")
+        for k, n in sorted(counters.items()):
+            if k.startswith("violations/") and f"{pid}/" + k[len("violations/") :] not in known:
+                print(f"  {n:6d} x {k[len('violations/'):]}")
     if a.replay or os.environ.get("VERIF_VERBOSE"):
         for n in notes[:10]:
             print("note:", n, file=sys.stderr)
